@@ -22,9 +22,9 @@ Definition len {A} (l : list A) : N := N.of_nat (length l).
 Definition nthN {A} (l : list A) (i : N) : option A := nth_error l (N.to_nat i).
 
 (* instruction word fields: op(8) | a(8) | b(8) | c(8), imm = low 16 bits as i16 *)
-Definition w_op (w : N) : N := (w / 16777216) mod 256.
-Definition w_a (w : N) : N := (w / 65536) mod 256.
-Definition w_b (w : N) : N := (w / 256) mod 256.
+Definition w_op (w : N) : N := (w / 2 ^ op_shift) mod 256.
+Definition w_a (w : N) : N := (w / 2 ^ a_shift) mod 256.
+Definition w_b (w : N) : N := (w / 2 ^ b_shift) mod 256.
 Definition w_c (w : N) : N := w mod 256.
 Definition w_imm (w : N) : N := w mod 65536.
 Definition w_simm (w : N) : Z := if w_imm w <? 32768 then Z.of_N (w_imm w) else (Z.of_N (w_imm w) - 65536)%Z.
